@@ -161,6 +161,9 @@ def text(rng, segs, links, stale, shuffle=True):
         if extra == ["__UNTAGGED__"]:
             L.append("\t".join(["S", i, seq]))      # an S line without any tag (valid GFA; only for alleles inside bubbles)
             continue
+        if extra and extra[0] == "__RAW__":
+            L.append("\t".join(["S", i, seq] + extra[1:]))      # tags exactly as an earlier run wrote them
+            continue
         t = ["LN:i:%d" % len(seq), "SN:Z:%s" % sn, "SO:i:%d" % so, "SR:i:%d" % sr] + extra
         if stale and rng.random() < 0.5:
             t.insert(rng.randint(0, len(t)), "BO:i:%d" % rng.randint(0, 50))
@@ -305,11 +308,17 @@ def main(prop):
     tmp = tempfile.mkdtemp(prefix="gtv-order-")
     k2_seen = 0
     try:
+        followups = []
         for it in range(60 if quick else 800):
-            default_order = prop == "C06" and it % 15 == 7
-            segs, links, order, broken = make_default_case(rng) if default_order else make_case(rng)
+            default_order = prop == "C06" and it % 15 == 7 and not followups
+            if followups:
+                # the previous case's own output, edited, as a new input (see edited_rerun_case)
+                segs, links, order, broken = followups.pop(0)
+                ck.count("edited-output-reordered")
+            else:
+                segs, links, order, broken = make_default_case(rng) if default_order else make_case(rng)
             with_seq = rng.random() < 0.5
-            gtext = text(rng, segs, links, stale=rng.random() < 0.5, shuffle=not default_order)
+            gtext = text(rng, segs, links, stale=rng.random() < 0.5 and not any(sg[5][:1] == ["__RAW__"] for sg in segs), shuffle=not default_order)
             tok = tokenize_gfa(gtext)
             res = run_order(gtext, order, with_seq, True, tmp, gz=rng.random() < 0.15, default_order=default_order)
             if default_order:
@@ -324,6 +333,10 @@ def main(prop):
                 ck.violation("order_gfa did not complete normally: %s" % (res.get("exc") or "exit %s" % res.get("code")), replay)
                 continue
             impl = [{"name": c, "out": tokenize_gfa(res["files"][c]) if c in res["files"] else None} for c in order]
+            if prop == "C06" and it % 5 == 1 and not default_order:
+                fu = edited_rerun_case(rng, res, order)
+                if fu:
+                    followups.append(fu)
             r = ck.driver([{"op": "order.run", "gfa": tok, "order": order, "with_seq": with_seq, "impl": impl}])[0]
             ok = True
             for sp in r["spec"]:
@@ -693,6 +706,36 @@ def reused_outdir_check(ck, rng, segs, links, order, with_seq, res, tmp, replay)
     if canon(again["files"].get("complete", "")) != canon(fresh["files"].get("complete", "")) or again["csv"].get("complete") != fresh["csv"].get("complete"):
         ck.violation("the -complete output depends on files an earlier run left in --outdir (chromosome %s was orderable then, is skipped now)" % c,
                      dict(replay, gfa=g1, gfa2=g2, chromosome=c, complete=again["files"].get("complete", "")[:3000]))
+
+
+def edited_rerun_case(rng, res, order):
+    """the documented pipeline "order, extend the graph, order again": the tool's own output (every node carrying complete,
+    well-formed BO/NO tags) gets one more link - a deletion edge from a scaffold node to the next but one, which merges two
+    bubbles and the scaffold node between them into one bubble - and is handed back as a new input. The stale tags describe the
+    OLD chain; the assignment must depend on the graph only. Returns (segs, links, order, broken) or None."""
+    written = [c for c in order if c in res["files"]]
+    segs, links, scaff = [], [], {}
+    for c in written:
+        t = tokenize_gfa(res["files"][c])
+        for sg in t["segs"]:
+            tags = {tg[0]: tg for tg in sg["tags"]}
+            rest = [":".join(tg) for tg in sg["tags"] if tg[0] not in ("LN", "SN", "SO", "SR")]
+            if all(k in tags for k in ("SN", "SO", "SR")):
+                segs.append([sg["id"], tags["SN"][2], int(tags["SO"][2]), int(tags["SR"][2]), sg["seq"], rest])
+            else:
+                segs.append([sg["id"], None, 0, 9, sg["seq"], ["__RAW__"] + [":".join(tg) for tg in sg["tags"]]])
+            if tags.get("NO", (0, 0, "1"))[2] == "0" and "BO" in tags:
+                scaff.setdefault(c, []).append((int(tags["BO"][2]), sg["id"]))
+        for l in t["links"]:
+            links.append((l["a"], "+" if l["da"] else "-", l["b"], "+" if l["db"] else "-", l["ov"], list(l["tags"])))
+    cands = [c for c in written if len(scaff.get(c, [])) >= 3]
+    if not cands:
+        return None
+    c = rng.choice(cands)
+    sc = [x[1] for x in sorted(scaff[c])]
+    i = rng.randrange(len(sc) - 2)
+    links.append((sc[i], "+", sc[i + 2], "+", 0, []))
+    return segs, links, written, {x: None for x in written}
 
 
 def roundtrip_io(ck, tmp, n):
